@@ -168,8 +168,8 @@ where
                     if v != last[i].0 { last[i] = (v, Instant::now()); continue; }
                     let b = busy[i].lock().unwrap().clone();
                     if let Some((_since, prefix)) = b {
-                        if last[i].1.elapsed() > Duration::from_secs(20) {
-                            rep.violation("execution hung: the runtime thread is blocked inside the code under test (no progress for 20 s)", json!({"scenario": scenario, "choices": prefix}));
+                        if last[i].1.elapsed() > Duration::from_secs(60) {
+                            rep.violation("execution hung: the runtime thread is blocked inside the code under test (no progress for 60 s)", json!({"scenario": scenario, "choices": prefix}));
                             shared.abort.store(true, Ordering::SeqCst);
                             shared.cv.notify_all();
                             // the blocked worker can never be joined: finish the process from here
@@ -318,8 +318,8 @@ where
                     let v = h.load(Ordering::Relaxed);
                     if v != last[i].0 { last[i] = (v, Instant::now()); continue; }
                     if let Some(case) = *busy[i].lock().unwrap() {
-                        if last[i].1.elapsed() > Duration::from_secs(20) {
-                            rep.violation("execution hung: the runtime thread is blocked inside the code under test (no progress for 20 s)", json!({"scenario": scenario, "case_index": case}));
+                        if last[i].1.elapsed() > Duration::from_secs(60) {
+                            rep.violation("execution hung: the runtime thread is blocked inside the code under test (no progress for 60 s)", json!({"scenario": scenario, "case_index": case}));
                             let code = rep.finish(json!({"states": next.load(Ordering::Relaxed).max(1), "transitions": 1, "traces_validated_against_impl": next.load(Ordering::Relaxed), "samples": [{"hung_case": case}], "exhaustive": false}));
                             std::process::exit(code.max(1));
                         }
